@@ -539,6 +539,11 @@ pub fn limit_templates() -> Vec<(String, String)> {
     v.push(("arithmetic_extremes".into(), "print(\"~ ~ ~ ~ ~\\n\", 2147483647 + 1, (-2147483648) - 1, 65536 * 65536, 46341 * 46341, (-2147483648) * (-1))\n".into()));
     v.push(("division_extremes".into(), "print(\"~ ~ ~ ~\\n\", (-7) / 2, (-7) % 2, 7 / (-2), 7 % (-2));\nprint(\"~\\n\", (-2147483648) / (-1))\n".into()));
     v.push(("remainder_min_by_minus_one".into(), "print(\"~\\n\", (-2147483648) % (-1))\n".into()));
+    // the Feeny spellings of the built-in methods must behave like the operators, in every profile
+    v.push(("feeny_spelling_arithmetic_extremes".into(), "print(\"~ ~ ~ ~ ~\\n\", 2147483647.add(1), (-2147483648).sub(1), 65536.mul(65536), 46341.mul(46341), (-2147483648).mul(-1))\n".into()));
+    v.push(("feeny_spelling_division".into(), "print(\"~ ~ ~ ~\\n\", (-7).div(2), (-7).mod(2), 7.div(-2), 7.mod(-2));\nprint(\"~\\n\", (-2147483648).div(-1))\n".into()));
+    v.push(("feeny_spelling_comparisons".into(), "print(\"~ ~ ~ ~ ~ ~ ~ ~\\n\", 1.le(2), 2.ge(2), 1.lt(1), 2.gt(1), 1.eq(1), 1.neq(1), 1.eq(null), 1.neq(true));\nprint(\"~ ~ ~ ~ ~ ~\\n\", true.and(false), true.or(false), true.eq(true), false.neq(1), null.eq(null), null.neq(0))\n".into()));
+    v.push(("operators_vs_spellings_side_by_side".into(), "let a = 2147483000;\nlet b = 9999;\nprint(\"~ ~\\n\", a + b, a.add(b));\nprint(\"~ ~\\n\", a * b, a.mul(b));\nprint(\"~ ~\\n\", (0 - a) - b, (0 - a).sub(b));\nprint(\"~ ~\\n\", a % b, a.mod(b))\n".into()));
     v.push(("empty_program".into(), "\n".into()));
     v.push(("only_function".into(), "function f() -> 1\n".into()));
     v.push(("function_last_in_top".into(), "print(\"a\\n\");\nfunction f() -> 1\n".into()));
